@@ -146,7 +146,7 @@ class ModelRegistry:
             return r
         impl = getattr(self, f'm_{obj.cls}_{name}', None)
         if impl is not None:
-            return (LibFn(f'{obj.cls}.{name}', lambda it_, ca, _o=obj: impl(it_, _o, ca)),)
+            return (LibFn(f'{obj.cls}.{name}', lambda it_, ca, _o=obj: impl(it_, _o, ca), bound=obj),)
         return None
 
     def obj_setattr(self, it, obj, name, value):
@@ -469,11 +469,10 @@ class ModelRegistry:
         saved = (st.script, st.pos, st.taken, st.pending, list(st.pc), st.choice_log, st.counter, st.next_id)
         heap_before = {o: dict(v) for o, v in st.heap.items()}
         n_eff, n_obl = len(st.effects), len(st.obligations)
-        st.solver.push()
+        st.push_scope(z3.And(k >= 0, k < base.len))
         only_user = False
         try:
             st.script, st.pos, st.taken, st.pending = [], 0, [], []
-            st.solver.add(z3.And(k >= 0, k < base.len))
             sub = Env({}, env, env.finfo)
             try:
                 it.assign(g.target, lower(base.at(k), st), sub)
@@ -487,7 +486,7 @@ class ModelRegistry:
         except (Unsupported, Infeasible):
             only_user = False
         finally:
-            st.solver.pop()
+            st.pop_scope()
             (st.script, st.pos, st.taken, st.pending, pc, st.choice_log, st.counter, st.next_id) = saved
             st.pc = pc
             st.heap = heap_before
@@ -665,11 +664,23 @@ class ModelRegistry:
     def m_list_append(self, it, l, ca):
         st = it.st
         items = st.getf(l, 'items')
-        st.emit('write', obj=l, field='items')
+        st.emit('write', obj=l, field='items', op='append', value=ca.args[0])
         if isinstance(items, tuple):
             st.setf(l, 'items', items + (ca.args[0],))
         else:
             st.setf(l, 'items', items.append(lift(ca.args[0], st)))
+
+    def seq_concat(self, it, x, y):
+        st = it.st
+        a = x if isinstance(x, SymSeq) else self.to_symseq(it, x)
+        b = y if isinstance(y, SymSeq) else self.to_symseq(it, y)
+        out = SymSeq.fresh(st, 'ext')
+        k = z3.Int('qe')
+        st.assume(out.len == a.len + b.len)
+        st.assume(FA([k], z3.Implies(z3.And(k >= 0, k < a.len), out.at(k) == a.at(k)), patterns=[out.at(k), a.at(k)]))
+        st.assume(FA([k], z3.Implies(z3.And(k >= 0, k < b.len), out.at(a.len + k) == b.at(k)), patterns=[b.at(k)]))
+        st.assume(FA([k], z3.Implies(z3.And(k >= a.len, k < out.len), out.at(k) == b.at(k - a.len)), patterns=[out.at(k)]))
+        return out
 
     def m_list_extend(self, it, l, ca):
         st = it.st
@@ -679,14 +690,7 @@ class ModelRegistry:
         if isinstance(items, tuple) and isinstance(other, tuple):
             st.setf(l, 'items', items + other)
             return
-        a = items if isinstance(items, SymSeq) else self.to_symseq(it, items)
-        b = other if isinstance(other, SymSeq) else self.to_symseq(it, other)
-        out = SymSeq.fresh(st, 'ext')
-        k = z3.Int('qe')
-        st.assume(out.len == a.len + b.len)
-        st.assume(FA([k], z3.Implies(z3.And(k >= 0, k < a.len), out.at(k) == a.at(k)), patterns=[out.at(k), a.at(k)]))
-        st.assume(FA([k], z3.Implies(z3.And(k >= 0, k < b.len), out.at(a.len + k) == b.at(k)), patterns=[b.at(k)]))
-        st.assume(FA([k], z3.Implies(z3.And(k >= a.len, k < out.len), out.at(k) == b.at(k - a.len)), patterns=[out.at(k)]))
+        out = self.seq_concat(it, items, other)
         st.setf(l, 'items', out)
 
     def to_symseq(self, it, items):
@@ -728,6 +732,16 @@ class ModelRegistry:
         if not st.branch(se.contains(k), 'set-remove-present'):
             it.raise_builtin('KeyError')
         st.setf(s, 'elems', se.remove(k))
+
+    def m_set_discard(self, it, s, ca):
+        st = it.st
+        e = st.getf(s, 'elems')
+        x = ca.args[0]
+        st.emit('write', obj=s, field='elems')
+        if isinstance(e, frozenset) and not is_symbolic(x) and all(not is_symbolic(y) for y in e):
+            st.setf(s, 'elems', e - {x})
+            return
+        st.setf(s, 'elems', self.symset_of(it, e).remove(lift(x, st)))
 
     def m_set_intersection(self, it, s, ca):
         st = it.st
